@@ -337,6 +337,68 @@ def work(chunk):
     return {"evals": evals, "hist": hist, "viol": viol[:300], "sample": None}
 
 
+# A fault the type checker finds in a file that is imported (bound by a let, which is the route the checker follows):
+# the diagnostic names the imported file and a line inside the faulty statement there, whatever the importing file holds.
+IMPORTED_FAULTS = [("missing-field", "tt.nofield"), ("type-mismatch", "1 +\n    \"s\""), ("not-boolean", "not sv"), ("call-argument-type", "inc(sv)")]
+
+
+def gen_imported():
+    for (fname, ftext), idx, depth, pad in itertools.product(IMPORTED_FAULTS, range(0, 3), (1, 2), (0, 3)):
+        yield (fname, idx, depth, pad)
+
+
+def work_imported(chunk):
+    srv = core.worker_server()
+    hist = {}
+    viol = []
+    evals = 0
+    for fname, idx, depth, pad in chunk:
+        ftext = dict(IMPORTED_FAULTS)[fname]
+        d = tempfile.mkdtemp(prefix="ucgverif-c17i-")
+        try:
+            base = [BASE[k % len(BASE)].format(i=k, j=k) for k in range(2)]
+            stmts = list(PRELUDE) + base[:idx] + ["let q =\n    %s;" % ftext] + base[idx:]
+            fi = len(PRELUDE) + idx
+            src, spans = assemble(stmts)
+            with open(os.path.join(d, "lib.ucg"), "w") as f:
+                f.write(src)
+            padding = "".join("let pad%d = %d;\n" % (k, k) for k in range(pad))
+            if depth == 1:
+                main = padding + "let lib = import \"./lib.ucg\";\nlet z = 1;\n"
+            else:
+                with open(os.path.join(d, "mid.ucg"), "w") as f:
+                    f.write("let inner = import \"./lib.ucg\";\nlet m = 2;\n")
+                main = padding + "let mid = import \"./mid.ucg\";\nlet z = 1;\n"
+            with open(os.path.join(d, "main.ucg"), "w") as f:
+                f.write(main)
+            for route in ("build", "cli"):
+                if route == "build":
+                    rs = srv.req({"op": "build", "path": os.path.join(d, "main.ucg")})
+                    msg = rs.get("err") if "err" in rs else None
+                else:
+                    rc, out, err = core.run_ucg(["build", "main.ucg"], cwd=d, env={"HOME": d})
+                    msg = err.decode("utf-8", "replace") if rc == 1 else None
+                evals += 1
+                bad = None
+                if msg is None:
+                    bad = ("no-diagnostic", None)
+                else:
+                    m = re.search(r"at file: (\S+) line: (\d+) column: (\d+)", msg)
+                    if not m:
+                        bad = ("diagnostic-without-file-and-position", msg[:300])
+                    elif os.path.basename(m.group(1)) != "lib.ucg":
+                        bad = ("diagnostic-names-%s-instead-of-the-imported-file" % ("the-importing-file" if os.path.basename(m.group(1)) == "main.ucg" else "another-file"), msg[:300])
+                    elif not inside((int(m.group(2)), int(m.group(3))), spans[fi]):
+                        bad = ("primary-position-outside-faulty-statement-of-the-imported-file", {"position": [int(m.group(2)), int(m.group(3))], "span": spans[fi], "message": msg[:300]})
+                k = "imported-file:%s:%s" % (route, "inside-span" if bad is None else bad[0].upper())
+                hist[k] = hist.get(k, 0) + 1
+                if bad:
+                    viol.append(((fname + ":in-imported-file", "depth-%d" % depth, idx), route, "pad-%d" % pad, bad[0], src, bad[1]))
+        finally:
+            shutil.rmtree(d, ignore_errors=True)
+    return {"evals": evals, "hist": hist, "viol": viol, "sample": None}
+
+
 def run(ctx):
     thorough = ctx.tier == "thorough"
     cs = list(gen_cases(thorough))
@@ -346,11 +408,16 @@ def run(ctx):
                 "arity; and 13 consumers that fault on a string x 11 ways of producing that string) x %d nesting positions (top level, tuple field, list element, call argument, select arm / default, copy field, map "
                 "callback, format argument, right operand on a continuation line, function body called and module body instantiated from a "
                 "later statement) x every statement index of a base program of multi-line statements x {base, 1 one-line / 1 three-line / 3 "
-                "one-line unrelated statements inserted before and, separately, after} x {eval_string, build(path)}; for five nesting positions at statement index 1 also what the real `ucg build` prints. All programs distinct; "
+                "one-line unrelated statements inserted before and, separately, after} x {eval_string, build(path)}; for five nesting positions at statement index 1 also what the real `ucg build` prints; four statically found faults inside a file imported by a let, one and two imports deep (the diagnostic names that file and a line of the faulty statement). All programs distinct; "
                 "non-trivial = a diagnostic was produced and judged." % (len(FAULTS), len(NEST))
                 + (" Thorough: each nesting position once more with the fault one construct deeper (9 expression-level positions inside it)." if thorough else ""))
     viol = []
     for part in core.pmap(work, cs, chunk=12):
+        ctx.count(part["evals"], part["evals"])
+        for k, v in part["hist"].items():
+            ctx.outcome(k, v)
+        viol.extend(part["viol"])
+    for part in core.pmap(work_imported, list(gen_imported()), chunk=6):
         ctx.count(part["evals"], part["evals"])
         for k, v in part["hist"].items():
             ctx.outcome(k, v)
@@ -372,6 +439,13 @@ def run(ctx):
 
 def replay(case):
     d = case["descriptor"]
+    if str(d[0]).endswith(":in-imported-file"):
+        core._WORKER_SERVER = None
+        part = work_imported([(d[0].split(":")[0], d[2], int(d[1].split("-")[1]), int(case["variant"].split("-")[1]))])
+        core.worker_server().close()
+        core._WORKER_SERVER = None
+        vs = [v for v in part["viol"] if v[1] == case["route"]]
+        return not vs, {"violations": [(v[2], v[3], v[5]) for v in vs]}
     for desc, stmts, fi, ci in gen_cases(True):
         if list(desc) == d:
             core._WORKER_SERVER = None
